@@ -116,6 +116,8 @@ class X509(object):
         tbs_certificate = parser.getChild(0)
         # Is the optional version field present?
         # This determines which index the key is at.
+        if not tbs_certificate.value:
+            raise SyntaxError("Empty tbsCertificate")
         if tbs_certificate.value[0] == 0xA0:
             serial_number_index = 1
             subject_public_key_info_index = 6
